@@ -181,3 +181,6 @@ def replay(ctx, payload):
     ctx.out.oracle_failures.clear()
     check(ctx, "replay", [c])
     return {"fails": bool(ctx.out.oracle_failures or ctx.out.disagreements), "oracle": ctx.out.oracle_failures, "disagreements": ctx.out.disagreements}
+
+
+LEVEL_NOTE = "; ".join(TRUSTED) + '. NEW (T1b): `sequence_bytes` is translated from the current source into a seek/read plan and the model is proved equal to that plan run on a file cursor (`sequence_bytes_plan_eq`, `source_sequence_bytes_slice` in Properties/C03Source.lean)'
